@@ -69,6 +69,7 @@ type loopMeta struct {
 	Step   string
 	Type   string
 	Bound  string
+	Start  string
 	Nested string // "", inner, sibling
 	Extra  string // "", continue, condvar, second-iv
 }
@@ -124,7 +125,7 @@ func genLoop(r *rand.Rand, b *strings.Builder, id *int, depth int, outerVar stri
 	if lo == "" {
 		lo = "0"
 	}
-	hi := []string{"n", "n", "10", "7", "m", "n + 3"}[r.Intn(6)]
+	hi := []string{"n", "n", "10", "7", "m", "n + 3", lo}[r.Intn(7)] // lo: start equals bound
 	if typ == "uint8" || typ == "uint32" {
 		lo = []string{"0", "1", "3"}[r.Intn(3)]
 		hi = []string{"n & 15", "10", "7", "250"}[r.Intn(4)]
@@ -138,6 +139,7 @@ func genLoop(r *rand.Rand, b *strings.Builder, id *int, depth int, outerVar stri
 		start, bound = hi, lo
 	}
 	m.Bound = bound
+	m.Start = start
 	if lo == ov && ov != "" {
 		m.Nested = "inner-dep"
 	}
@@ -195,7 +197,10 @@ func genLoop(r *rand.Rand, b *strings.Builder, id *int, depth int, outerVar stri
 			(*metas)[len(*metas)-1].Nested += "inner"
 		}
 	}
-	form := []string{"top", "top", "top", "breaktop", "breaktop-neg", "bottom"}[r.Intn(6)]
+	form := []string{"top", "top", "top", "breaktop", "breaktop-neg", "bottom", "while-continue"}[r.Intn(7)]
+	if form == "while-continue" && (m.Extra == "continue" || !up || typ != "int") {
+		form = "top"
+	}
 	if m.Extra == "continue" && form == "bottom" {
 		form = "top" // `continue` would skip the update of a bottom-tested loop
 	}
@@ -226,6 +231,22 @@ func genLoop(r *rand.Rand, b *strings.Builder, id *int, depth int, outerVar stri
 		w("\t%s", recCall())
 		body(ind + "\t")
 		w("}")
+	case "while-continue":
+		// no post statement: `continue` jumps straight to the header, so the header has two
+		// back edges that update the variable differently (not an induction variable)
+		w("%s := %s", v, conv(start))
+		w("for %s %s %s {", v, cmp, conv(bound))
+		w("\t%s", recCall())
+		w("\tif %s%%3 != 0 {", v)
+		w("\t\tres += int(%s)", v)
+		w("\t} else {")
+		w("\t\t%s += 2", v)
+		w("\t\tcontinue")
+		w("\t}")
+		body(ind + "\t")
+		w("\t%s", post)
+		w("}")
+		w("res += int(%s)", v)
 	case "bottom":
 		w("%s := %s", v, conv(start))
 		w("for {")
@@ -624,6 +645,8 @@ func judge(res *evid.Result, fm fnMeta, fn *ssa.Function, sites map[int]*recSite
 		if T.Cmp(big.NewInt(int64(stays))) != 0 {
 			class := m.Form + "/" + m.Cmp
 			switch {
+			case (m.Cmp == "<=" || m.Cmp == ">=") && m.Start == m.Bound:
+				class = "inclusive-start-equals-bound"
 			case overflowed:
 				// the variable passed through its type's overflow in this very trace
 				class = "wraparound"
